@@ -125,6 +125,18 @@ static void pump_destroy(struct rthr *th, int id, int from_pump);
 /* splice taken away after it has already been used (fault from a call index > 1) cannot be survived by a
  * pump that holds data in its pipe: -1 is then an honest answer.  Absent from its first call (the probe)
  * on, the pump must run in read/write mode and has no excuse. */
+/* the pump could not get a pipe for its buffer (descriptor exhaustion injected at pipe2): an honest -1 */
+static long pump_pipe_refused(void)
+{
+	int i;
+	if (!simk_stats.fault_fired[FS_PIPE2])
+		return 0;
+	for (i = 0; i < PL->nfaults; i++)
+		if (PL->faults[i].site == FS_PIPE2 && PL->faults[i].err != ENOSYS)
+			return 1;
+	return 0;
+}
+
 static long splice_lost_midrun(void)
 {
 	int i;
@@ -183,7 +195,7 @@ static void pump_check_after(struct rthr *th, int id, int ret)
 		px->done = 1;
 	} else {
 		/* -1: only legitimate after an I/O error: an injected one, or the consumer having gone away */
-		if (!RO[b].xi[SX_CCLOSED] && simk_stats.fault_fired[FS_WRITE] + simk_stats.fault_fired[FS_READ] + splice_lost_midrun() == 0)
+		if (!RO[b].xi[SX_CCLOSED] && simk_stats.fault_fired[FS_WRITE] + simk_stats.fault_fired[FS_READ] + splice_lost_midrun() + pump_pipe_refused() == 0)
 			viol("C17.retval", "pump obj %d: returned -1 although no I/O error occurred%s", id,
 			     simk_stats.fault_fired[FS_SPLICE] ? " (splice is absent from its first call on: the pump has to work in read/write mode)" : "");
 		px->errored = 1;
